@@ -746,9 +746,12 @@ func notNil(v reflect.Value) bool {
 }
 
 func (st *Runtime) isSet(node Node) (ok bool) {
+	scope, context, content := st.scope, st.context, st.content
 	defer func() {
 		if r := recover(); r != nil {
-			// something panicked while evaluating node
+			// something panicked while evaluating node; the panic skipped the restores
+			// done by if, range and yield (e.g. inside an exec'd template), so reset them here
+			st.scope, st.context, st.content = scope, context, content
 			ok = false
 		}
 	}()
